@@ -154,11 +154,19 @@ def o_api_invalid(rng, n=4):
     from .corr_api import ORDER_SPECS
     def gen():
         for k in range(n):
-            cr = crystal(rng, max_N=4, protos=["wurtzite", "tetragonal2", "mono", "hcp"])
+            all_orders = k % 2 == 1
+            if all_orders:
+                cr = crystal(rng, max_N=2, min_N=2)          # small: the object will also hold order-3/4 basis sets
+            else:
+                cr = crystal(rng, max_N=4, protos=["wurtzite", "tetragonal2", "mono", "hcp"])
             N = len(cr.numbers)
             specs = [list(x) for x in ORDER_SPECS] + [[None, [rng.choice([2, 3, 4])] * rng.randint(2, 3)],
-                                                      [None, [2, 3, 3]], [None, [3, 2, 3, 2]], [None, [4, 4]]]
+                                                      [None, [2, 3, 3]], [None, [3, 2, 3, 2]], [None, [4, 4]],
+                                                      [None, [2, 2, 4]], [None, [2, 4, 4]], [None, [4, 2, 4]],
+                                                      [None, [2, 2, 3]], [None, [3, 3, 4]], [None, [2.5]],
+                                                      [None, [2, 3, 4, 4]], [None, [2, 5]], [None, [1, 2, 3]]]
             yield {"crystal": cr, "n_snap": 40, "data_seed": rng.randrange(10 ** 6), "specs": specs,
+                   "all_orders": all_orders,
                    # trailing-shape mismatches, snapshot-count mismatches (one off; half; double; 3/4 and 4/3, the
                    # ratios for which a flattened reshape of one array by the other's snapshot count still "fits"),
                    # transposed axes, a 2-D array
